@@ -170,7 +170,8 @@ mut("C13-revert-tuple-definition-echo-fix", "fintphase.c",
 
 
 mut("C17-revert-mandatory-sections-in-header", "lib.c",
-    "			if( n == LIB_Pos || n == LIB_PosTbl ) continue;", "			continue;")
+    "	{\n		LibSectName n;\n		for( n = LIB_NAME_START; n < LIB_NAME_LIMIT; n += 1 ) {\n			if( n == LIB_Pos || n == LIB_PosTbl ) continue;",
+    "	if (0) {\n		LibSectName n;\n		for( n = LIB_NAME_START; n < LIB_NAME_LIMIT; n += 1 ) {\n			if( n == LIB_Pos || n == LIB_PosTbl ) continue;")
 
 
 def main():
